@@ -260,6 +260,9 @@ class Recorder:
                         "path": [[[int(a) + 1, int(b) + 1] for a, b in mol.search_tree.edges] for mol in mols],
                         "root": [int(mol.root if mol.root is not None else next(iter(mol.nodes))) + 1 for mol in mols],
                         "attr": attr, "build": build,
+                        "mname": [mol.mol_name for mol in mols],
+                        "resname": [[mol.nodes[n]["resname"] for n in sorted(mol.nodes)] for mol in mols],
+                        "resid": [[int(mol.nodes[n]["resid"]) for n in sorted(mol.nodes)] for mol in mols],
                         "ignored": [i + 1 for i, mol in enumerate(mols) if mol.mol_name in self.ignore],
                         "nrewind": int(self.rwargs.get("nrewind", 5)),
                         "maxiter": int(R.maxiter if R.maxiter is not None else 80),
